@@ -67,6 +67,7 @@ fn boundary_names() -> Vec<Labels> {
 fn main() {
     // a stack overflow / abort in the code under test must become a verdict, not a dead check
     vcore::supervise("C04");
+    vcore::install_log_evaluation(); // logging is part of the environment: log arguments are evaluated as under a real subscriber
     let ctx = Ctx::from_args("C04", "exploration");
     let thorough = !ctx.quick();
 
